@@ -199,6 +199,8 @@ func (c *Ctx) Finish(level string) {
 	if c.Cov.Samples == nil {
 		cov["samples"] = []interface{}{}
 	}
+	c.Assume = append(c.Assume, "TLC explored the stated configuration completely unless exhaustive=false",
+		"the concretiser and the abstraction alpha (table lookups, self-checked) are trusted; verdicts come only from real-code behaviour")
 	tier := c.Tier
 	if tier != "quick" && tier != "thorough" {
 		tier = "quick"
